@@ -64,7 +64,7 @@ WORKERS = int(os.environ.get("VERIF_TLC_WORKERS", "16"))
 
 def _full(**kw):
     c = dict(EMIT=False, Batches={0, 1, 2, 3}, Dims={1, 2, 3}, Actions={1, 2, 3, 4}, States={1, 2, 3},
-             Step=1, EpsStep=16, NKeys=2, FreqN=4096, Deviation="none")  # fmt: skip
+             Step=1, EpsStep=16, NKeys=2, EpsKeys=2, FreqN=4096, FreqStep=1, Deviation="none")  # fmt: skip
     c.update(kw)
     return c
 
@@ -223,12 +223,19 @@ def _batched(rows, b):
     return rows[0] if b == 0 else rows
 
 
+HEADROOM = {}  # what -> largest observed |error| / tolerance (evidence that tolerances are not tuned tight)
+
+
 def _close(got, val, tol, what):
     got = np.asarray(got, dtype=np.float64)
-    bad = ~(np.abs(got - val) <= tol)  # catches nan
+    val, tol = np.broadcast_to(val, got.shape), np.broadcast_to(tol, got.shape)
+    err = np.abs(got - val)
+    bad = ~(err <= tol)  # catches nan
+    if got.size and not bad.any():
+        HEADROOM[what] = max(HEADROOM.get(what, 0.0), float(np.max(err / np.where(tol > 0, tol, 1.0))))
     if bad.any():
         j = tuple(int(x) for x in np.argwhere(bad)[0])
-        return f"{what}{list(j)} = {got[j]!r}, specified {val[j]!r} (tolerance {tol[j]:.3g})"
+        return f"{what}{list(j)} = {float(got[j])!r}, specified {float(val[j])!r} (tolerance {float(tol[j]):.3g})"
     return None
 
 
@@ -366,7 +373,8 @@ def check_case(kit: Kit, e, mode, seed, stats=None):
             lg64 = _form_rows(a["logits"])
             lg = lg64.astype(np.float32)
             obs = jnp.asarray(_batched(lg, b))
-            big = np.abs(lg64).max(axis=1)
+            # largest |logit| among the actions that carry probability: OFF actions contribute an exact 0
+            big = np.asarray([np.abs(r[r > r.max() - 100.0]).max() for r in lg64])
             if meth == "logits":
                 out = _call(fns["logits"], pol, obs)
                 bad = _shape(out, x["shape"])
@@ -464,6 +472,90 @@ def nontrivial(e):
     return True
 
 
+# ------------------------------------------------------------------ binding canaries
+def _bump_form(f):  # add 2^-12 to the constant term
+    for t in f:
+        if t["a"][0] == "one":
+            t["k"] = [t["k"][0] * 4096 + t["k"][1], t["k"][1] * 4096]
+            return
+    f.append({"a": ["one", 0, 1], "k": [1, 4096]})
+
+
+def _small(f):  # all terms of moderate size: 2^-12 is far above the float32 tolerance
+    return form_eval(f)[1] < 32
+
+
+def _bump_rat(x):  # x + 1/64
+    x[0], x[1] = int(x[0]) * 64 + int(x[1]), int(x[1]) * 64
+
+
+# (method, corruption of the TLC record, which records are suitable)
+BINDING_CANARIES = [
+    ("GaussianTanhPolicy.entropy", lambda e: _bump_form(e["exp"]["val"][0][0]), lambda e: _small(e["exp"]["val"][0][0])),
+    ("GaussianTanhPolicy.entropy", lambda e: e["exp"]["shape"].reverse(), lambda e: e["b"] != e["n"]),
+    ("GaussianPolicy.log_probability", lambda e: _bump_form(e["exp"]["val"][-1]), lambda e: _small(e["exp"]["val"][-1])),
+    ("SoftmaxPolicy.entropy", lambda e: _bump_form(e["exp"]["val"][0]), lambda e: all(_small(f) for f in e["args"]["logits"][0])),
+    ("SoftmaxPolicy.log_probability", lambda e: _bump_form(e["exp"]["val"][0]), lambda e: all(_small(f) for f in e["args"]["logits"][0])),
+    ("SoftmaxPolicy.call", lambda e: _bump_rat(e["exp"]["val"][0][0]), lambda e: True),
+    ("GaussianPolicy.sample", lambda e: _bump_rat(e["exp"]["mean"][0][0]), lambda e: e["args"]["net"][0][e["n"]] in ([0, 1], [-4, 1], [1, 1])),
+    ("GaussianPolicy.call", lambda e: _bump_rat(e["exp"]["mean"][0][0]), lambda e: True),
+    ("value_policy.greedy_policy", lambda e: e["exp"].__setitem__("argmax", [k for k in range(e["n"]) if k not in e["exp"]["argmax"]]), lambda e: 0 < len(e["exp"]["argmax"]) < e["n"]),
+]
+
+
+def _binding_canaries(kit, cands, seed):
+    """cands: op -> [(mode, record)].  Returns a list of problems (empty = all corruptions noticed)."""
+    import copy
+
+    problems = []
+    for op, mutate, suitable in BINDING_CANARIES:
+        pool = [(m, e) for m, e in cands.get(op, []) if suitable(e)]
+        if not pool:
+            problems.append(f"no suitable case for {op}")
+            continue
+        for mode, e in pool[:6]:
+            if check_case(kit, e, mode, seed) is not None:
+                continue  # this method currently disagrees with the specification: cannot corrupt a passing case
+            e2 = copy.deepcopy(e)
+            mutate(e2)
+            if check_case(kit, e2, mode, seed) is None:
+                problems.append(f"corrupted expectation for {op} was not noticed")
+            break
+    return problems
+
+
+# ------------------------------------------------------------------ worker processes
+def _work(job):
+    """Runs in a spawned process: one Kit (one JAX runtime) per group of cases."""
+    import time
+
+    kit = Kit()
+    seed = job["seed"]
+    if job["kind"] == "canary":
+        return {"problems": _binding_canaries(kit, job["cands"], seed)}
+    HEADROOM.clear()
+    stats = {"noise_visible": 0, "noise_elems": 0, "explore": {}}
+    tims, out = {}, []
+    for j, mode, e in job["items"]:
+        t0 = time.time()
+        what = check_case(kit, e, mode, seed, stats)
+        tims[f"{mode}:{e['op']}"] = tims.get(f"{mode}:{e['op']}", 0.0) + time.time() - t0
+        if what is not None:
+            out.append((j, what))
+    return {"bad": out, "stats": stats, "tims": tims, "headroom": dict(HEADROOM)}
+
+
+GROUPS = [
+    ("GaussianPolicy.call", "GaussianPolicy.log_probability", "GaussianPolicy.entropy"),
+    ("GaussianPolicy.sample", "GaussianPolicy.sample_moments", "DeterministicTanhPolicy.call"),
+    ("GaussianTanhPolicy.call", "GaussianTanhPolicy.log_probability", "GaussianTanhPolicy.entropy"),
+    ("GaussianTanhPolicy.sample", "GaussianTanhPolicy.sample_moments", "value_policy.greedy_policy", "value_policy.epsilon_greedy_policy"),
+    ("SoftmaxPolicy.call", "SoftmaxPolicy.logits", "SoftmaxPolicy.entropy"),
+    ("SoftmaxPolicy.log_probability", "q_policy.greedy_policy"),
+    ("SoftmaxPolicy.sample", "SoftmaxPolicy.sample_frequency"),
+]
+
+
 # ------------------------------------------------------------------ driver
 def _canary(dev, inv):
     r = tlc.run("Heads", tlc.cfg_text(constants=_full(Deviation=dev, Step=7, States={1}), invariants=[inv]), workers=2, tag=f"heads-{dev}")
@@ -475,30 +567,52 @@ def _key_of(e):
 
 
 def run_heads(rep):
+    import multiprocessing as mp
+    import sys
+
+    # spawned workers must resolve `harness` and the rl_blox tree under test exactly like this process
+    os.environ["PYTHONPATH"] = os.pathsep.join([p for p in sys.path if p] + [os.environ.get("PYTHONPATH", "")])
     quick = rep.tier == "quick"
     for m in ("Forms", "HeadsFormsTest", "Heads"):
         tlc.sany(m)
     # generation constants: A = every shape, sparse lattice, run eagerly (as a user calls the methods);
-    # B = dense lattice, run under nnx.jit (as the losses call them)
-    gen_a = _full(EMIT=True, Step=30 if quick else 10, EpsStep=256, NKeys=1, FreqN=2048)
+    # B = dense lattice, run under nnx.jit (as the losses and rollouts call them)
+    st = {1, 3} if quick else {1, 2, 3}
+    gen_a = _full(EMIT=True, States=st, Step=60 if quick else 10, EpsStep=256, NKeys=1, EpsKeys=1, FreqN=2048, FreqStep=60)
     if quick:
-        gen_b = _full(EMIT=True, Batches={0, 3}, Dims={1, 3}, Actions={2, 4}, States={1, 3}, Step=1, EpsStep=32, NKeys=8)
+        gen_b = _full(EMIT=True, Batches={0, 3}, Dims={1, 3}, Actions={2, 4}, States=st, Step=1, EpsStep=32, NKeys=2, EpsKeys=8, FreqStep=8)
     else:
-        gen_b = _full(EMIT=True, Step=1, EpsStep=8, NKeys=16)
-    with cf.ThreadPoolExecutor(max_workers=4) as ex:
+        gen_b = _full(EMIT=True, Step=1, EpsStep=8, NKeys=3, EpsKeys=16, FreqStep=2)
+    with cf.ThreadPoolExecutor(max_workers=8) as ex, cf.ProcessPoolExecutor(max_workers=len(GROUPS) + 1, mp_context=mp.get_context("spawn")) as pool:
         f_self = ex.submit(tlc.run, "HeadsFormsTest", tlc.cfg_text(), workers=1, tag="formstest")
-        f_prop = ex.submit(tlc.run, "Heads", tlc.cfg_text(constants=_full(), invariants=INVS), workers=WORKERS, coverage=True, tag="heads-prop")
         f_a = ex.submit(tlc.run, "Heads", tlc.cfg_text(constants=gen_a), workers=1, tag="heads-genA")
         f_b = ex.submit(tlc.run, "Heads", tlc.cfg_text(constants=gen_b), workers=1, tag="heads-genB", timeout=1800)
+        f_prop = ex.submit(tlc.run, "Heads", tlc.cfg_text(constants=_full(), invariants=INVS), workers=WORKERS, coverage=True, tag="heads-prop")
         f_can = [ex.submit(_canary, d, i) for d, i in CANARIES]
-        kit = Kit()  # imports jax / rl_blox while TLC runs
+        ga, gb = f_a.result(), f_b.result()
+        if not ga.emitted or not gb.emitted:
+            raise tlc.MachineryError("TLC emitted no cases")
+        items = [("eager", e) for e in ga.emitted] + [("jit", e) for e in gb.emitted]
+        known = {op for g in GROUPS for op in g}
+        missing = {e["op"] for _, e in items} - known
+        if missing:
+            raise tlc.MachineryError(f"no worker group for {sorted(missing)}")
+        jobs = [{"kind": "cases", "seed": rep.seed, "items": [(j, m, e) for j, (m, e) in enumerate(items) if e["op"] in g]} for g in GROUPS]
+        cands = {}
+        for m, e in items:
+            if nontrivial(e) and e["b"] > 1 and len(cands.setdefault(e["op"], [])) < 64:
+                cands[e["op"]].append((m, e))
+        want = {op for op, _, _ in BINDING_CANARIES}
+        jobs.append({"kind": "canary", "seed": rep.seed, "cands": {k: v for k, v in cands.items() if k in want}})
+        futs = [pool.submit(_work, j) for j in jobs]
         if not f_self.result().ok:
             raise tlc.MachineryError("Forms.tla self-test failed")
-        prop, ga, gb = f_prop.result(), f_a.result(), f_b.result()
+        prop = f_prop.result()
         cans = [f.result() for f in f_can]
+        results = [f.result() for f in futs]
     rep.add_tlc(prop, "Heads laws (all shapes, full lattice)")
-    rep.add_tlc(ga, "Heads generation A (all shapes, sparse, eager)")
-    rep.add_tlc(gb, "Heads generation B (dense, jit)")
+    rep.add_tlc(ga, "Heads generation A (all shapes, sparse lattice; run eagerly)")
+    rep.add_tlc(gb, "Heads generation B (dense lattice; run under nnx.jit)")
     if not prop.ok:
         rep.violation(f"spec:Heads:{prop.violated}", f"design-level violation of {prop.violated} in Heads.tla", prop.error_trace)
     else:
@@ -506,65 +620,45 @@ def run_heads(rep):
     for dev, inv, r in cans:
         if r.violated != inv:
             raise tlc.MachineryError(f"canary: deviation {dev} is not refuted by {inv} (got {r.violated})")
+    for p in results[-1]["problems"]:
+        raise tlc.MachineryError(f"binding canary: {p}")
 
     stats = {"noise_visible": 0, "noise_elems": 0, "explore": {}}
-    seen_ops, cases, nontriv, bad_cases = {}, 0, set(), 0
-    first_ok = {}
-    for mode, res in (("eager", ga), ("jit", gb)):
-        if not res.emitted:
-            raise tlc.MachineryError("TLC emitted no cases")
-        for e in res.emitted:
-            what = check_case(kit, e, mode, rep.seed, stats)
-            cases += 1
-            seen_ops[e["op"]] = seen_ops.get(e["op"], 0) + 1
-            if nontrivial(e):
-                nontriv.add((e["op"], e["b"], e["n"], e["i"], e["args"].get("key", 0), e["args"].get("obs", 0), e["args"].get("eps", 0)))
-            if what is not None:
-                bad_cases += 1
-                bs = "un-batched" if e["b"] == 0 else f"batch {e['b']}"
-                rep.violation(_key_of(e), f"{e['op']} ({bs}, width {e['n']}, lattice index {e['i']}, {mode}): {what}", {"part": "heads", "mode": mode, "case": e})
-            elif e["op"] not in first_ok and nontrivial(e) and e["b"] > 1:
-                first_ok[e["op"]] = (mode, e)
+    tims, headroom, bad = {}, {}, {}
+    for r in results[:-1]:
+        bad.update(dict(r["bad"]))
+        stats["noise_visible"] += r["stats"]["noise_visible"]
+        stats["noise_elems"] += r["stats"]["noise_elems"]
+        for n, acts in r["stats"]["explore"].items():
+            stats["explore"].setdefault(n, []).extend(acts)
+        for k, v in r["tims"].items():
+            tims[k] = tims.get(k, 0.0) + v
+        for k, v in r["headroom"].items():
+            headroom[k] = max(headroom.get(k, 0.0), v)
+    seen_ops, nontriv, samples = {}, set(), {}
+    for j, (mode, e) in enumerate(items):
+        seen_ops[e["op"]] = seen_ops.get(e["op"], 0) + 1
+        if nontrivial(e):
+            nontriv.add((e["op"], e["b"], e["n"], e["i"], e["args"].get("key", 0), e["args"].get("obs", 0), e["args"].get("eps", 0)))
+        if j in bad:
+            bs = "un-batched" if e["b"] == 0 else f"batch {e['b']}"
+            rep.violation(_key_of(e), f"{e['op']} ({bs}, width {e['n']}, lattice index {e['i']}, {mode}): {bad[j]}", {"part": "heads", "mode": mode, "case": e})
+        elif nontrivial(e) and e["b"] > 1 and e["op"] not in samples:
+            samples[e["op"]] = {"mode": mode, "case": e}
+    cases = len(items)
 
     # epsilon = 1 explores the whole action range (uniform random action)
     for n, acts in stats["explore"].items():
         if len(acts) >= 100 and set(acts) != set(range(n)):
             rep.violation("value_policy.epsilon_greedy_policy:not_as_specified", f"epsilon = 1 over {len(acts)} keys only ever chose actions {sorted(set(acts))} of {n}", {"part": "heads", "explore": n})
 
-    # binding canaries: a corrupted expectation must be noticed
-    import copy
-
-    def corrupt_and_expect(op, mutate):
-        if op not in first_ok:
-            return  # that method currently violates the spec everywhere: nothing to corrupt
-        mode, e = first_ok[op]
-        e2 = copy.deepcopy(e)
-        mutate(e2)
-        if check_case(kit, e2, mode, rep.seed) is None:
-            raise tlc.MachineryError(f"binding canary: corrupted expectation for {op} was not noticed")
-
-    def bump_form(f):  # add 2^-12 to the constant term
-        for t in f:
-            if t["a"][0] == "one":
-                t["k"] = [t["k"][0] * 4096 + t["k"][1], t["k"][1] * 4096]
-                return
-        f.append({"a": ["one", 0, 1], "k": [1, 4096]})
-
-    corrupt_and_expect("GaussianTanhPolicy.entropy", lambda e: bump_form(e["exp"]["val"][0][0]))
-    corrupt_and_expect("GaussianTanhPolicy.entropy", lambda e: e["exp"]["shape"].reverse() if e["exp"]["shape"][0] != e["exp"]["shape"][1] else e["exp"]["shape"].append(1))
-    corrupt_and_expect("GaussianPolicy.log_probability", lambda e: bump_form(e["exp"]["val"][-1]))
-    corrupt_and_expect("SoftmaxPolicy.entropy", lambda e: bump_form(e["exp"]["val"][0]))
-    corrupt_and_expect("SoftmaxPolicy.log_probability", lambda e: e["args"].__setitem__("action", [(k + 1) % e["n"] for k in e["args"]["action"]]))
-    corrupt_and_expect("GaussianPolicy.sample", lambda e: e["exp"]["mean"][0].__setitem__(0, [int(e["exp"]["mean"][0][0][0]) * 64 + int(e["exp"]["mean"][0][0][1]), int(e["exp"]["mean"][0][0][1]) * 64]))
-    corrupt_and_expect("value_policy.greedy_policy", lambda e: e["exp"].__setitem__("argmax", [k for k in range(e["n"]) if k not in e["exp"]["argmax"]]))
-
     rep.traces += cases
     rep.evaluations += cases
     rep.distinct += len(nontriv)
     rep.exhaustive = True
     for op in ("GaussianTanhPolicy.entropy", "GaussianPolicy.log_probability", "SoftmaxPolicy.entropy"):
-        if op in first_ok:
-            rep.sample({"mode": first_ok[op][0], "case": first_ok[op][1]})
+        if op in samples:
+            rep.sample(samples[op])
     rule = (
         "Heads.tla: TLC enumerates (head, method, batch code 0(un-batched)/1/2/3, width 1-3 (actions 1-4), lattice index): "
         "log-variance in {-50,-4,0,1,10}, mean / tanh pre-activation in {0,-1,3/2} / {0,-40,40}, action-mean in {0,-1,1/2,2}, "
@@ -574,11 +668,13 @@ def run_heads(rep):
     rep.rule = (rep.rule + " || " if rep.rule else "") + rule
     rep.extra["heads"] = {
         "cases_by_method": seen_ops,
-        "cases_disagreeing": bad_cases,
+        "cases_disagreeing": len(bad),
         "sample_elements": stats["noise_elems"],
         "sample_elements_noise_visible": stats["noise_visible"],
         "epsilon1_draws": {str(k): len(v) for k, v in stats["explore"].items()},
         "canaries_refuted": [d for d, _ in CANARIES],
+        "max_error_over_tolerance": {k: round(v, 3) for k, v in sorted(headroom.items())},
+        "seconds_by_method": {k: round(t, 1) for k, t in sorted(tims.items()) if t >= 1.0},
     }
     rep.assumptions += [
         "heads: values are decided on the lattice only (general sigma with a != mean is covered through the e^q atoms of the lattice; arbitrary logits are not)",
@@ -604,6 +700,5 @@ def replay_heads(d, rep):
     if what is None:
         print("agrees with the specification")
         return 0
-    print(f"VIOLATION property={rep.pid} replay=(heads) {_key_of(e)}")
-    print("  ", what)
+    print(f"still disagrees ({_key_of(e)}):", what)
     return 1
